@@ -847,7 +847,7 @@ def run(chk):
     chk.mc_must_hold("MC_Polyco_" + ("full" if thorough else "quick"), r)
     chk.exhaustive = r.ok
     for cfg, inv in (("Neg_Polyco_notol.cfg", "MergeLoopIsDeclared"), ("Neg_Polyco_right.cfg", "SelectIsContaining")):
-        rn = tlc.run("MC_Polyco", cfg, workers=4, timeout=600)
+        rn = tlc.run("MC_Polyco", cfg, workers=4, timeout=1200)
         chk.add_tlc(cfg, rn)
         if rn.violation != inv:
             chk.machinery_errors.append("negative model %s was not rejected by %s (got %r)" % (cfg, inv, rn.violation))
@@ -874,7 +874,7 @@ def run(chk):
 
     def job(b):
         flat = [e for evs in b for e in evs]
-        return b, flat, run_batch(flat, "batch", timeout=1500 if thorough else 400)
+        return b, flat, run_batch(flat, "batch", timeout=1800 if thorough else 900)
     with concurrent.futures.ThreadPoolExecutor(max_workers=12) as ex:
         results = list(ex.map(job, batches))
     for bi, (b, flat, (rejected, r)) in enumerate(results):
